@@ -7,6 +7,10 @@ with an open (gated) stream, open WebSocket}; the shutdown trigger (the callable
 max_requests being reached), gate releases, clock ticks and late arrivals (a new connection, a new
 HTTP/2 stream, a pipelined request) are separate sources that Explorer A interleaves.
 graceful_timeout = 3, shutdown_timeout = 2, keep_alive_timeout = 50 (so only shutdown closes).
+A subset of the connection multisets (request that never finishes, open WebSocket, open HTTP/2 stream, gated request,
+and pairs of them) is repeated with graceful_timeout = 0 (5th element of the parameters "g0") under both triggers: a
+grace period of 0 has elapsed at the trigger instant, so what is still in progress then is cancelled in that very
+instant, lifespan.shutdown follows and worker_serve returns by t0 + 0 + shutdown_timeout.
 
 Oracle (reference timeline, exact virtual instants; t0 = trigger)
   serve-not-returned / serve-late   worker_serve still running at final quiescence / returned after t0+3+2
@@ -16,7 +20,8 @@ Oracle (reference timeline, exact virtual instants; t0 = trigger)
   h2-stream-after-shutdown          an HTTP/2 stream opened after t0 was served instead of refused
   no-goaway                         idle HTTP/2 connection closed at shutdown without GOAWAY
   in-grace-request-truncated        a request released inside the grace period did not get its complete response
-  cancelled-too-early/late          a stuck request's connection was torn down before / after t0+graceful
+  cancelled-too-early/late          a stuck request's connection was torn down before / after t0+graceful (still open when
+                                    worker_serve returned, or closed at a later instant than t0+graceful)
   lifespan-shutdown                 lifespan.shutdown not delivered exactly once, or delivered while connections were
                                     still being served inside the grace period
 """
@@ -31,15 +36,20 @@ from mc.harness import internal_errors, std_execute
 ID = "C15"
 LEVEL = "model_checking"
 TECHNIQUE = ("stateless deviation-bounded exploration of the shutdown trigger against connection phases on the real "
-             "worker_serve() (asyncio and trio) under virtual time; reference shutdown timeline with exact instants")
-RULE = ("scenario = engine x trigger source x multiset of <=3 connection kinds x late-arrival kind; trigger, releases, "
+             "worker_serve() (asyncio and trio) under virtual time; reference shutdown timeline with exact instants; "
+             "graceful_timeout at 3 and at its boundary 0")
+RULE = ("scenario = engine x trigger source x multiset of <=3 connection kinds x late-arrival kind [x graceful_timeout 0]; trigger, releases, "
         "ticks and late arrivals interleaved within (M,S); non-trivial = instance ran and a non-default choice taken; "
         "distinct by observation digest")
 ASSUMPTIONS = [
     "signal delivery and the multi-process master are outside; the trigger is the shutdown_trigger callable or max_requests",
     "CPython 3.12.1 base_events.Server is the real object (its wait_closed semantics are part of what is checked)",
+    "graceful_timeout = 0: the grace period has elapsed at the trigger instant, so requests in progress at the trigger are "
+    "cancelled then (a request released before the trigger within the same virtual instant is not demanded complete: "
+    "with every event at t0 'inside the grace period' is empty)",
 ]
-BOUNDS_DOC = {"quick": "M<=1, S<=2; <=2 connections", "thorough": "M<=1, S<=3; <=3 connections; trio R<=1"}
+BOUNDS_DOC = {"quick": "M<=1, S<=2; <=2 connections; graceful_timeout 3, and 0 for the multisets of G0_MULTIS (late: none)",
+              "thorough": "M<=1, S<=3; <=3 connections; trio R<=1; graceful_timeout 3, and 0 for G0_MULTIS x every late arrival"}
 BUDGET = {"quick": 300, "thorough": 1800}
 
 GRACE, SHUT = 3.0, 2.0
@@ -47,6 +57,8 @@ OK = [("recv_body",), ("send", {"type": "http.response.start", "status": 200, "h
       ("send", {"type": "http.response.body", "body": b"ok", "more_body": False})]
 KINDS = ["idle", "partial", "short", "stuck", "h2open", "h2idle", "ws"]
 LATE = ["none", "connect", "h2stream", "pipelined"]
+# connection multisets repeated with graceful_timeout = 0 (nothing here ends by itself at the trigger, or only if released)
+G0_MULTIS = [("stuck",), ("ws",), ("h2open",), ("short",), ("short", "stuck"), ("h2open", "ws"), ("stuck", "stuck")]
 
 
 def conn_events(k: int, kind: str) -> tuple:
@@ -107,6 +119,8 @@ def scenarios(tier: str) -> List[Any]:
                     if tier == "quick" and len(ms) == 2 and late not in ("none", "connect"):
                         continue
                     out.append((engine, trig, ms, late))
+                    if ms in G0_MULTIS and (late == "none" or tier != "quick"):
+                        out.append((engine, trig, ms, late, "g0"))
     return out
 
 
@@ -118,7 +132,8 @@ def bounds(tier: str, params: Any) -> dict:
 
 
 def build(params: Any) -> tuple:
-    engine, trig, ms, late = params
+    engine, trig, ms, late = params[:4]
+    grace = 0 if params[4:] == ("g0",) else GRACE
     apps: dict = {"lifespan": [("lifespan_loop",)], "http": OK}
     sources = []
     releases = []
@@ -131,7 +146,7 @@ def build(params: Any) -> tuple:
             releases.append(("release", "g%d" % k))
         if kind not in ("partial",):
             n_requests += 1
-    cfg = {"keep_alive_timeout": 50, "graceful_timeout": GRACE, "shutdown_timeout": SHUT}
+    cfg = {"keep_alive_timeout": 50, "graceful_timeout": grace, "shutdown_timeout": SHUT}
     if trig == "callable":
         sources.append(("ctl", [("shutdown",)]))
     else:
@@ -189,11 +204,13 @@ def _trig_idx(w: Any) -> int:
 
 
 def oracle(w: Any, params: Any) -> List[dict]:
-    engine, trig, ms, late = params
+    engine, trig, ms, late = params[:4]
     out: List[dict] = []
     t0 = _t0(w, params)
     ti = _trig_idx(w)
-    tag = f"{trig}:{'+'.join(ms)}:{late}"
+    tag = f"{trig}:{'+'.join(ms)}:{late}" + "".join(f":{x}" for x in params[4:])
+    # this scenario's own grace period (0: it has elapsed at the trigger instant)
+    grace = w.scenario["config"]["graceful_timeout"]
     if t0 is None:
         return internal_errors(w)
     fired = w.driver.fired
@@ -201,9 +218,13 @@ def oracle(w: Any, params: Any) -> List[dict]:
     # ---- worker_serve returns, in time
     if w.serve_result is None:
         if ticks_left:  # no timer is armed any more, yet serve() has not returned: it never will
-            out.append(V("serve-not-returned", f"{trig}:{_kinds(ms)}", f"{tag}: t0={t0} now={w.final_time} live={w.live_tasks[:3]}"))
+            # (the key says what holds it: requests that were in progress at the trigger, or only requests that
+            # arrived - on a connection open at the trigger - after it had fired)
+            held = [i for i in w.instances if i.type in ("http", "websocket") and i.outcome == "running"]
+            after = f":request-arrived-after-trigger:{engine}" if held and all(i.seq > ti for i in held) else ""
+            out.append(V("serve-not-returned", f"{trig}:{_kinds(ms)}{after}", f"{tag}: t0={t0} now={w.final_time} live={w.live_tasks[:3]}"))
     else:
-        if w.serve_done_at > t0 + GRACE + SHUT + 1e-9:
+        if w.serve_done_at > t0 + grace + SHUT + 1e-9:
             out.append(V("serve-late", f"{trig}:{_kinds(ms)}", f"{tag}: returned at {w.serve_done_at}, t0={t0}"))
         if w.serve_result != "ok":
             out.append(V("serve-failed", f"{trig}:{w.serve_result.split(':')[1]}", f"{tag}: {w.serve_result}"))
@@ -244,7 +265,7 @@ def oracle(w: Any, params: Any) -> List[dict]:
                 out.append(V("served-after-shutdown", "request-behind-one-in-progress",
                              f"{tag}: conn {k}: the request pipelined behind the one in progress at the trigger was started at "
                              f"{nxt.t_start} (t0={t0})"))
-        if kind in ("short", "h2open", "stream") and t_rel is not None and t_rel < t0 + GRACE:
+        if kind in ("short", "h2open", "stream") and t_rel is not None and t_rel < t0 + grace:
             # released inside the grace period (or before the trigger): the response must be complete
             ok = False
             if cl.h2 is not None:
@@ -268,10 +289,14 @@ def oracle(w: Any, params: Any) -> List[dict]:
             inst = next((i for i in w.instances if i.scope.get("path", "").startswith("/k%d" % k)), None)
             if inst is None or inst.seq > ti:
                 continue
-            if rec.closed_at is not None and rec.closed_at < t0 + GRACE - 1e-9 and kind != "ws":
+            if rec.closed_at is not None and rec.closed_at < t0 + grace - 1e-9 and kind != "ws":
                 out.append(V("cancelled-too-early", kind, f"{tag}: conn {k} closed at {rec.closed_at}, t0={t0}"))
             if w.serve_result is not None and rec.closed_at is None:
                 out.append(V("cancelled-too-late", kind, f"{tag}: serve returned at {w.serve_done_at} but conn {k} still open"))
+            if rec.closed_at is not None and rec.closed_at > t0 + grace + 1e-9 and not rec.client_eof and not rec.client_reset:
+                # what remains when the grace period ends is cancelled then (with graceful_timeout = 0: at the trigger)
+                out.append(V("cancelled-too-late", f"{kind}:after-grace",
+                             f"{tag}: conn {k} closed at {rec.closed_at}, t0={t0}, graceful_timeout {grace}"))
     # ---- late arrivals
     for kl, rec in w.conns.items():
         if kl >= len(ms) and rec.opened_at > t0 and not rec.refused:
@@ -291,7 +316,7 @@ def oracle(w: Any, params: Any) -> List[dict]:
         if n > 1 or (n == 0 and w.serve_result is not None):
             out.append(V("lifespan-shutdown", f"count-{n}", f"{tag}: {n} lifespan.shutdown messages"))
         for (t, what, m) in li.log:
-            if what == "recv" and m["type"] == "lifespan.shutdown" and t < t0 + GRACE - 1e-9:
+            if what == "recv" and m["type"] == "lifespan.shutdown" and t < t0 + grace - 1e-9:
                 still = [k for k, rec in w.conns.items() if not rec.refused and rec.opened_at <= t0 and
                          (rec.handler_done_at is None or rec.handler_done_at > t) and (rec.closed_at is None or rec.closed_at > t)
                          and rec.handler != "ok"]
